@@ -41,6 +41,9 @@ TIERS = {
 
 def thresholds(K, gam, full=True):
     """(t2 list, float list): every position, every flavour."""
+    if gam.name == "big_int":
+        t2s = [t for t in range(-2, 2 * K + 1) if t % 2 == 0]
+        return t2s, [gam.thr(t) for t in t2s]
     t2s, ths = [], []
     for t2 in range(-1, 2 * K):
         if t2 % 2 == 0:
@@ -58,8 +61,19 @@ def thresholds(K, gam, full=True):
     return t2s, ths
 
 
+class _IntInv:
+    """exact inverse for int64 images (float() would merge neighbours above 2^53)"""
+    def __init__(self, gam, K):
+        self.m = {int(gam(v)): v for v in range(-1, K + 1)}
+
+    def get(self, x, default):
+        return self.m.get(int(x), default)
+
+
 def alpha_obj(s, inv):
     def back(a):
+        if isinstance(inv, _IntInv):
+            return [inv.get(int(x), -999) for x in np.asarray(a).tolist()]
         return [inv.get(float(x), -999) for x in np.asarray(a).tolist()]
     return {"pos": back(s.pos), "neg": back(s.neg), "ep": int(s.nb_easy_pos),
             "en": int(s.nb_easy_neg), "sc": s.score_class.value, "ec": s.equal_class.value}
@@ -76,6 +90,8 @@ def events_for_case(a, cid, gam, K, ids):
     from score_analysis import Scores, pointwise_cm
 
     inv = {float(gam(v)): v for v in range(-1, K + 1)}
+    if gam.name == "big_int":
+        inv = _IntInv(gam, K)
     evs = []
 
     def ev(op, **kw):
@@ -144,9 +160,17 @@ def events_for_case(a, cid, gam, K, ids):
         e = ev("pointwise", args={"labels": lab, "scores": scs, "sc": a["sc"], "ec": a["ec"]},
                t2=t2s, out=[])
         try:
-            arr = pointwise_cm(np.array(lab), np.concatenate([pos, neg]), np.array(ths),
+            labs, scs = np.array(lab), np.concatenate([pos, neg])
+            if len(lab) >= 4 and len(lab) % 2 == 0 and cid % 8 == 0:
+                # 2-D inputs whose memory layouts differ: C-ordered labels, F-ordered scores
+                labs = labs.reshape(2, -1)
+                scs = np.asfortranarray(scs.reshape(2, -1))
+            arr = pointwise_cm(labs, scs, np.array(ths),
                                pos_label=1, score_class=a["sc"], equal_class=a["ec"])
             arr = np.asarray(arr).astype(int)
+            if arr.shape[:-3] != np.shape(labs) or arr.shape[-3:] != (len(ths), 2, 2):
+                raise AssertionError(f"pointwise_cm shape {arr.shape}")
+            arr = arr.reshape(len(lab), len(ths), 2, 2)
             e["out"] = [[[int(c[0, 0]), int(c[0, 1]), int(c[1, 0]), int(c[1, 1])] for c in row]
                         for row in arr]
         except Exception as ex:  # noqa
@@ -341,6 +365,8 @@ def run(ctx: core.Ctx):
         gams = fam if ctx.tier == "thorough" and cid % 8 == 0 else [fam[(cid + ctx.seed) % len(fam)]]
         if cid % 5 == 0 and all(v in (0, 1) for v in list(a["p"]) + list(a["n"])):
             gams = [gamma.ident_bool()]          # hard 0/1 decisions stored as booleans
+        elif cid % 7 == 3:
+            gams = [gamma.big_int()]             # int64 scores beyond float64's integer range
         for g in gams:
             events += events_for_case(a, cid, g, K, ids)
         k = nontrivial_key(a)
